@@ -225,7 +225,7 @@ def print_assumptions(prop_file, theorems):
         if "Closed under the global context" in body:
             result[name] = []
         else:
-            axs = re.findall(r'^([A-Za-z_][\w.\']*)\s*:', body, re.M)
+            axs = [a for a in re.findall(r'^([A-Za-z_][\w.\']*)\s*:', body, re.M) if a != "Axioms"]
             result[name] = axs
     missing = [t for t in theorems if t not in result]
     if missing:
